@@ -317,7 +317,9 @@ def run_parent(pid: str, tier: str, workers: int | None = None) -> int:
             cmd = [sys.executable, "-X", "faulthandler", "-W", "default::ResourceWarning", "-m", "vmon", pid,
                    "--tier", tier, "--worker", f"{i}/{n}", "--out", out]
             log = open(os.path.join(wd, f"w{i}.log"), "w")
-            procs.append((i, out, log, subprocess.Popen(cmd, cwd=VERIF, env=child_env(), stdout=log, stderr=log)))
+            env = child_env()
+            env["VMON_RUN_DIR"] = wd
+            procs.append((i, out, log, subprocess.Popen(cmd, cwd=VERIF, env=env, stdout=log, stderr=log)))
         parts = []
         deadline = time.time() + limit
         for i, out, log, p in procs:
